@@ -33,6 +33,8 @@ class FileGen:
         r = self.rng
         for _ in range(r.randrange(0, 4)):
             x = r.random()
+            if getattr(self, 'no_block_comments', False):
+                x = x * 0.5     # after a planted unclosed comment nothing may close it: blank lines and line comments only
             if x < 0.3:
                 for _ in range(r.randrange(1, 5)):
                     self.lines.append('')
@@ -50,17 +52,34 @@ class FileGen:
             elif x < 0.85:
                 self.emit('/* comment with \\\n splice */')
                 self.feats.add('splice-in-comment')
-            else:
+            elif x < 0.92:
                 self.emit('// comment continued \\\nby a splice')
                 self.feats.add('splice-in-line-comment')
+            else:
+                # directly adjacent backslash-newlines: a continuation line that holds nothing but the backslash
+                self.n_noise = getattr(self, 'n_noise', 0) + 1
+                self.emit('#define NOISE_%d_%d (1 \\\n\\\n%s + 2)' % (id(self) % 9973, self.n_noise, '\\\n' * r.randrange(0, 3)))
+                self.feats.add('adjacent-splices')
 
     def probe(self, k):
         """A probe statement; returns the physical line on which __LINE__ (its first character) stands."""
         r = self.rng
         x = r.random()
+        if getattr(self, 'no_block_comments', False) and x >= 0.85:
+            x = 0.1
         if x < 0.45:
             ln = self.cur()
             self.lines.append('  OUTV(%d, __LINE__); OUTS(%d, __FILE__);' % (k, k))
+            return ln
+        if x < 0.5:
+            self.feats.add('adjacent-splices-between-tokens')
+            self.lines.append('  OUTV(%d, \\' % k)
+            for _ in range(r.randrange(1, 4)):
+                self.lines.append('\\')
+            ln = self.cur()
+            self.lines.append('__LINE__); OUTS(%d, \\' % k)
+            self.lines.append('\\')
+            self.lines.append('    __FILE__);')
             return ln
         if x < 0.6:
             self.feats.add('splice-between-tokens')
@@ -139,7 +158,7 @@ def make_case(rng, root, idx, plant):
         feats.add('include-before-probes')
     diag = None
     if plant:
-        where = rng.choice(['plain', 'macro-body', 'macro-arg', 'pasted', 'stringized-context'])
+        where = rng.choice(['plain', 'macro-body', 'macro-arg', 'pasted', 'stringized-context', 'tokenizer-error-after-splice', 'tokenizer-error-after-splice'])
         g.noise()
         if where == 'plain':
             g.lines.append('static int planted(void) {')
@@ -148,6 +167,19 @@ def make_case(rng, root, idx, plant):
             g.lines.append('  return 1 + UNDEFINED_XYZ;')
             g.lines.append('}')
             diag = (where, {('main', ln)})
+        elif where == 'tokenizer-error-after-splice':
+            # an error found while tokenizing whose position is the first character after a backslash-newline
+            kind = rng.choice(['unclosed-comment', 'unclosed-char', 'unclosed-comment-after-adjacent-splices'])
+            g.lines.append('static int planted(void) {')
+            g.lines.append('  return 1 + \\')
+            if kind == 'unclosed-comment-after-adjacent-splices':
+                g.lines.append('\\')
+            ln = g.cur()
+            g.lines.append("'a;" if kind == 'unclosed-char' else '/* this comment is never closed')
+            g.no_block_comments = kind != 'unclosed-char'
+            g.lines.append('}')
+            diag = (where, {('main', ln)})
+            feats.add('planted-kind:' + kind)
         elif where == 'macro-body':
             dl = g.cur()
             g.lines.append('#define BODY(x) ((x) + UNDEFINED_XYZ)')
@@ -379,20 +411,56 @@ def run(ctx):
             ctx.count('loc_records_checked', nloc)
             if bad:
                 ctx.violation('C18|loc|%s' % fkey, '.loc records name lines without a token: %s' % bad[:5], files=files, script='$CHIBICC -I$VERIF/rt -S -o- %s | grep -n "\\.loc" | head; exit 1' % name)
-    # dedicated probe of the open finding: #line
-    src = '#include "vrt.h"\nint main(void) {\n#line 500 "foo.c"\n  OUTV(1, __LINE__); OUTS(1, __FILE__);\n# 800 "bar.c"\n  OUTV(2, __LINE__);\n  OUTV(3, __LINE__);\n  return 0;\n}\n'
+    # dedicated probe of the open finding: #line.  chibicc numbers the line after `#line N` N+1 (pinned by test/line.c); the
+    # probe records the delta of every __LINE__ after each directive form, so only a uniform +1 is the known finding
+    forms = [('plain', '#line 500 "foo.c"'), ('gnu-marker', '# 800 "bar.c"'), ('no-file', '#line 1200'), ('macro-operand', '#line BASE'), ('macro-operands', '#line BASE2 FNAME'),
+             ('continued', '#line \\\n 3000'), ('macro-operand-continued', '#line \\\n BASE'), ('after-comment', '#line /* c */ 4000 /* d */'), ('big', '#line 2147483000')]
+    rng = random.Random(ctx.seed + 18)
+    rng.shuffle(forms)
+    lines = ['#include "vrt.h"', '#define BASE 2000', '#define BASE2 \\', '  2500', '#define FNAME "baz.c"', '', 'int main(void) {']
+    k = 0
+    owners = []
+    for (fname, d) in forms:
+        lines.append(d)
+        for j in range(rng.randrange(1, 4)):
+            k += 1
+            lines.append('  OUTV(%d, __LINE__);%s' % (k, ' OUTS(%d, __FILE__);' % k if j == 0 else ''))
+            owners.append(fname)
+            if j == 0:
+                owners.append(fname + ':file')
+        if rng.random() < 0.5:
+            lines.append('')
+    lines += ['  return 0;', '}']
+    src = '\n'.join(lines) + '\n'
     p = os.path.join(work, 'lineprobe.c')
     open(p, 'w').write(src)
     rg = core.build_and_run('gcc', cc, p, work, 'lp')
+    rc2 = core.build_and_run('clang', cc, p, work, 'lp')
     rx = core.build_and_run('chibicc', cc, p, work, 'lp')
     ctx.evaluations += 1
     ctx.saw('probe:line-directive')
-    if rg['stage'] == 'run' and rx['stage'] == 'run' and rg['out'] != rx['out']:
-        d = core.first_diff(rx['out'], rg['out'])
-        ctx.violation('C18|LINE|line-directive|+1', 'after `#line 500`: chibicc %s, gcc %s' % (d[1], d[2]), files={'lineprobe.c': src},
-                      script='$CHIBICC -I$VERIF/rt -c -o l.o lineprobe.c && gcc -o l l.o $RT && ./l | head -1 | grep -q "=500" && exit 0; exit 1')
+    pf = {'lineprobe.c': src}
+    pscript = '$CHIBICC -I$VERIF/rt -c -o l.o lineprobe.c && gcc -o l l.o $RT && ./l > got.txt; gcc -w -I$VERIF/rt -o r lineprobe.c $RT && ./r > ref.txt; diff got.txt ref.txt; exit 1'
+    if rg['stage'] != 'run' or rc2['stage'] != 'run' or rg['out'] != rc2['out']:
+        ctx.note_inconclusive('#line probe: references fail or disagree')
     elif rx['stage'] != 'run':
-        ctx.violation('C18|LINE|line-directive|fail', 'probe failed: ' + rx['err'].decode('utf-8', 'replace')[:200], files={'lineprobe.c': src})
+        ctx.violation('C18|LINE|line-directive|fail', 'probe failed: ' + rx['err'].decode('utf-8', 'replace')[:200], files=pf)
+    else:
+        lg, lx = rg['out'].decode().split('\n')[:-1], rx['out'].decode().split('\n')[:-1]
+        if len(lg) != len(lx) or len(lg) != len(owners):
+            ctx.violation('C18|LINE|line-directive|output-shape', 'probe printed %d lines, reference %d' % (len(lx), len(lg)), files=pf, script=pscript)
+        else:
+            for o, a1, b1 in zip(owners, lx, lg):
+                ctx.count('line_directive_probes')
+                if o.endswith(':file'):
+                    if a1 != b1:
+                        ctx.violation('C18|FILE|line-directive|%s' % o[:-5], '__FILE__ after #line (%s): chibicc %s, gcc = clang %s' % (o, a1, b1), files=pf, script=pscript)
+                    continue
+                dlt = int(a1.split('=')[1]) - int(b1.split('=')[1])
+                if dlt == 1:
+                    ctx.violation('C18|LINE|line-directive|+1', 'after `#line N` (%s): chibicc %s, gcc = clang %s' % (o, a1, b1), files=pf, script=pscript)
+                elif dlt != 0:
+                    ctx.violation('C18|LINE|line-directive|%s|%+d' % (o, dlt), 'after `#line N` (%s): chibicc %s, gcc = clang %s' % (o, a1, b1), files=pf, script=pscript)
     if ctx.counts.get('reference_failed', 0) > 0.02 * n:
         ctx.note_inconclusive('%d generated files were rejected by a reference compiler' % ctx.counts['reference_failed'])
     if ctx.counts.get('probes_generator_table_disagrees', 0) > 0.01 * max(1, ctx.counts.get('line_probes_compared', 1)):
